@@ -37,9 +37,10 @@ func verifIngestMsg(secret []byte) []byte {
 // exactly one New announcement, the lookup sees the registration only after it
 // was validated and announced, both deliveries are counted, nothing panics or
 // stalls.
-// verif:shards=3
+// verif:replay=native-then-model
+// verif:shards=4
 func VerifC09IngestRace() {
-	scenario := verifnd.Choose("scenario", 3) // sharded: worker x worker, worker x sweeper x lookup, worker x worker x sweeper
+	scenario := verifnd.Choose("scenario", 4) // sharded: worker x worker, worker x (sweeper x) lookup, worker x worker x sweeper, worker x sweeper
 	if scenario == 2 && !verifnd.Thorough() {
 		return // bound (quick): two workers with the sweeper are explored in the thorough tier
 	}
@@ -77,14 +78,14 @@ func VerifC09IngestRace() {
 	}
 	var sawUnannounced int32
 	workers := 2
-	if scenario == 1 {
+	if scenario == 1 || scenario == 3 {
 		workers = 1
 	}
 	run(func() { rm.ingestRegistration(r1) })
 	if workers == 2 {
 		run(func() { rm.ingestRegistration(r2) })
 	}
-	if scenario == 2 || scenario == 1 && verifnd.Thorough() {
+	if scenario == 2 || scenario == 3 || scenario == 1 && verifnd.Thorough() {
 		// bound (quick): the sweeper joins worker x lookup only in the thorough tier
 		run(func() { rm.RemoveOldRegistrations() })
 	}
